@@ -384,7 +384,7 @@ class CookieJar(AbstractCookieJar):
                     cookie["max-age"] = ""
 
             elif expires := cookie["expires"]:
-                expire_time = self._parse_date(expires) or None
+                expire_time = self._parse_date(expires)
                 if expire_time is None:
                     cookie["expires"] = ""
 
